@@ -235,6 +235,7 @@ def parse_rvalue(r, locals_ty=None):
     if r.startswith('no_retag '):
         r = r[len('no_retag '):]
     # references
+    if r.startswith('&/*tls*/ '): return ('tlsref', r[len('&/*tls*/ '):].strip())
     for pre, kind in (('&raw const ', 'rawptr'), ('&raw mut ', 'rawptr'), ('&mut ', 'refmut'), ('&', 'ref')):
         if r.startswith(pre):
             rest = r[len(pre):]
@@ -477,6 +478,9 @@ def parse_mir(path, src_tag=''):
                     fns.setdefault(g.name, g)
                     continue
                 m = match_const_header(line, False)
+                if m is None:
+                    mi = re.match(r'^(\S.*::\{constant#\d+\}): (.+) = \{$', line)          # inline const block (e.g. the accessor of a thread_local!)
+                    if mi: m = _M([line, 'const', mi.group(1), mi.group(2)])
                 if m:
                     cur = Fn(); cur.name = m.group(2); cur.kind = m.group(1); cur.params = []; cur.ret = m.group(3)
                     cur.locals = {0: m.group(3)}; cur.blocks = {}; cur.sig = line; cur.error = None; cur.src = src_tag
